@@ -26,6 +26,7 @@ type item struct {
 	Tag  string              // what the item exercises (kind|member, literal class, shape)
 	Vars map[string]tick.Var // predefined vars (templates)
 	Want *lit                // literal sweep: the value the spelling must denote
+	Alt  string              // another script of the item stream with the same edge (API histories)
 	// kernel items
 	Toks []tok
 	ML   bool
